@@ -25,6 +25,27 @@ SCENARIOS = {
         "thorough": [hist("c06", 1500, "thorough", extra=T1), hist("c06", 200, "thorough")],
         "counts": ["C06"],
     },
+    "C02": {
+        "theorems": ["C02_exact", "C02_exact_usizeMax", "C02_exact_saturated", "C02_spec", "C02_unique", "C02_exact_bruteforce",
+                     "C02_by_vector", "C02_by_item"],
+        "quick": [hist("c02", 50, extra=T1), hist("c02", 10)],
+        "thorough": [hist("c02", 1200, "thorough", extra=T1), hist("c02", 300, "thorough")],
+        "counts": ["C02", "C01"],
+    },
+    "C03": {
+        "theorems": ["C03_wellformed", "C03_total", "C03_filter_exact", "C03_default_budget", "C03_by_item_absent",
+                     "C03_by_item_present", "C03_by_item_eq_by_vector", "C03_prefix", "C03_monotone", "C03_budget_le"],
+        "quick": [hist("c03", 50, extra=T1)],
+        "thorough": [hist("c03", 1000, "thorough", extra=T1), hist("c03", 200, "thorough")],
+        "counts": ["C03"],
+    },
+    "C07": {
+        "theorems": ["C07_prefix_index", "C07_prefix_kind", "C07_range", "C07_frame_add", "C07_frame_append", "C07_frame_del",
+                     "C07_frame_clear", "C07_frame_prepare", "C07_frame_build", "C07_answers", "C07_dump_build"],
+        "quick": [hist("c07", 50, extra=T1), hist("c07", 10)],
+        "thorough": [hist("c07", 1200, "thorough", extra=T1), hist("c07", 300, "thorough")],
+        "counts": ["C07"],
+    },
     "C19": {
         "theorems": ["C19_dim_add", "C19_dim_append", "C19_dim_query", "C19_append", "C19_del_absent", "C19_needBuild_unchanged"],
         "quick": [hist("c19", 60, extra=T1)],
